@@ -68,6 +68,13 @@ Definition small_coord (x : Q) : bool :=
 Definition small_dyadic (l : list pt) : bool :=
   (Z.of_nat (length l) <=? 12)%Z && forallb (fun p => small_coord (px p) && small_coord (py p)) l.
 
+(* wider class for the area alone: coordinates k / 4096 with |k| < 2^23, at most 12 vertices: products are
+   multiples of 2^-24 below 2^46, sums of 24 of them below 2^51 -- the shoelace sum is computed without rounding *)
+Definition mid_coord (x : Q) : bool :=
+  let q := Qred (x * 4096) in Pos.eqb (Qden q) 1 && (Z.abs (Qnum q) <? 8388608)%Z.
+Definition area_exact_dyadic (l : list pt) : bool :=
+  (Z.of_nat (length l) <=? 12)%Z && forallb (fun p => mid_coord (px p) && mid_coord (py p)) l.
+
 (* geometry of one voxel: stored vertex list (exactly), area, centroid, volume *)
 Definition check_geom (user stored : list pt) (pi a cx cy vol : Q) : Z :=
   match stored_vertices user with
@@ -78,7 +85,7 @@ Definition check_geom (user stored : list pt) (pi a cx cy vol : Q) : Z :=
          | None => 1%Z
          | Some c =>
            let sd := small_dyadic l in
-           let ta := if sd then 0 else tol_area l in
+           let ta := if sd || area_exact_dyadic l then 0 else tol_area l in
            let tx := if sd then pow2 (-52) * Qabs (px c) else tol_centroid (cyc_sum_r agx l) (px c) l in
            let ty := if sd then pow2 (-52) * Qabs (py c) else tol_centroid (cyc_sum_r agy l) (py c) l in
            let v := volume_r pi l in
